@@ -102,6 +102,11 @@ def run_case(case):
         tags.append("gridding_raised:%s" % type(tr.error).__name__)
         tr.result = ([j["X"] for j in tr.jumps], [j["J"] for j in tr.jumps], [j["T"] for j in tr.jumps])
         sim = dict(sim); sim["grid"] = None
+    if tr.error is not None and not post_crash and SC.unbounded_adaptive_tau(tr, sim):
+        # the recorded C04 defect (the run does not return); no recorded state left its limits unless judged below
+        states = [e[2] for e in tr.log if e[0] == "fn"]
+        if not any(SC.within(lims, s) for s in states):
+            return {"nontrivial": False, "mismatches": mism, "violations": viol, "tags": tags + ["raised:unbounded-adaptive-tau(C04 finding)"]}
     if tr.error is not None and not post_crash:
         # a crash: look at the states the loop was in (recorded evaluator arguments) before judging
         states = [e[2] for e in tr.log if e[0] == "fn"]
